@@ -239,7 +239,24 @@ func checkResourceObject(v *verdicts, n *jnode, res jsonapi.Resource, prepath st
 	}
 }
 
+// delegRes: an application's own Resource implementation - a struct that has an exported
+// string field ID of its own (here holding something else than the resource's ID) and
+// hands every method of the interface to another resource.
+type delegRes struct {
+	ID string
+	jsonapi.Resource
+}
+
 func genMarshalRes(r *Rng, typ jsonapi.Type, o *Out) (jsonapi.Resource, map[string]any) {
+	res, vals := genMarshalRes0(r, typ, o)
+	if _, soft := res.(*jsonapi.SoftResource); soft && r.chance(1, 6) {
+		o.stat("res.own-implementation")
+		return &delegRes{ID: "not-the-id", Resource: res}, vals
+	}
+	return res, vals
+}
+
+func genMarshalRes0(r *Rng, typ jsonapi.Type, o *Out) (jsonapi.Resource, map[string]any) {
 	vals := genFieldVals(r, typ)
 	for k, v := range vals {
 		vals[k] = utf8ify(v)
@@ -317,6 +334,8 @@ func suiteMarshal(r *Rng, n int, thorough bool, o *Out) {
 			meta = genMeta(r, 1)
 			if mh, ok := res.(jsonapi.MetaHolder); ok {
 				mh.SetMeta(meta)
+			} else {
+				meta = nil // an implementation without meta
 			}
 		}
 		prepath := prefixes[r.IntN(len(prefixes))]
